@@ -12,11 +12,17 @@ THEOREMS = [P + n for n in [
     "if_bad_condition_is_error", "if_missing_endif_after_else_is_error", "if_unterminated_taken_is_error",
     "if_second_else_is_error", "if_ok_means_closed", "include_error_propagates",
     "repeat_error_propagates", "dir_error_fails_enclosing", "main_status_iff", "main_status_01",
-    "main_success_writes", "main_no_output_on_error", "main_unopenable_output", "reported_error_reaches_exit"]]
+    "main_success_writes", "main_no_output_on_error", "main_unopenable_output", "reported_error_reaches_exit",
+    "assembleRet_eq_loop", "end_leaves_through_flag_test", "end_with_error_flag_fails", "eof_with_error_flag_fails",
+    "end_with_clear_flag_succeeds", "deferred_error_reaches_exit"]]
 RULE = ("valid programs of every CPU in the statement corpus (instructions, data, labels, define/macro/if/repeat/equ) "
         "x single-point corruptions of 21 kinds (unknown mnemonic, undefined symbol, out-of-range value, malformed "
-        "directive/conditional, unterminated macro/quote/comment, ...) at random positions and inside "
-        "taken-if/else/macro/repeat contexts x output types, each run with a stale output file in place; "
+        "directive/conditional, unterminated macro/quote/comment, ...) and 8 DEFERRED kinds (errors that set the sticky "
+        "asm_context->error flag and let the loop go on: dsPIC unknown mnemonic / operand combination, a macro call that "
+        "fails to expand as the last item of a .db/.dw/.dc16/.dc32/.dc64 list) at random positions and inside "
+        "taken-if/else/macro/repeat contexts x source terminators (none, `end`, `end` + text behind it, `end` directly "
+        "behind the erroneous statement inside its context, `.end`, `END`) x output types, each run with a stale output "
+        "file in place; "
         "non-trivial = corrupted or >= 4 statements; distinct = distinct source text")
 MODELLED = ("the statement loop of AsmContext::assemble() (return-code threading), parse_ifdef_ignore/parse_if/"
             "parse_repeat/include result handling, main() of naken_asm.cpp from pass 1 to exit (error_flag, link, "
@@ -55,6 +61,36 @@ def run_one(exe, tmp, idx, src, otype, args=()):
             "stale": data is not None and data.startswith(b"STALE-OUTPUT")}
 
 
+# Errors of the DEFERRED kind: the handler prints the diagnostic, sets the sticky flag asm_context->error and reports
+# success, so the statement loop goes on; the flag is tested once, behind the loop (core/AsmContext.cpp).  Found by
+# `grep -n "error = 1" asm/*.cpp core/*.cpp`: asm/dspic.cpp (unknown instruction / operand combination, returns 4) and
+# the five failure exits of macros_expand_params() in core/Macros.cpp (the lexer then returns TOKEN_EOF, which the
+# data directives take for the end of their operand list).
+DEFERRED = {
+    "dspic-unknown-mnemonic": (["  frobnicate w2, w3"], "dspic"),
+    "dspic-bad-operand-combo": (["  mov w0, w1, w2, w3"], "dspic"),
+    "dspic-bad-combo-in-data": (["  add w0"], "dspic"),
+    "macro-arg-count-in-data": ([".macro DSUM(a, b)", "  a + b", ".endm", "  %s 5, DSUM(1)"], None),
+    "macro-too-many-args-in-data": ([".macro DSUM(a, b)", "  a + b", ".endm", "  %s DSUM(1, 2, 3)"], None),
+    "macro-missing-paren-in-data": ([".macro DSUM(a, b)", "  a + b", ".endm", "  %s 1, 2, DSUM(1, 2"], None),
+    "macro-without-params-in-data": ([".macro DSUM(a, b)", "  a + b", ".endm", "  %s 7, DSUM"], None),
+    "macro-params-too-long-in-data": ([".macro DSUM(a, b)", "  a + b", ".endm", "  %s 7, DSUM(1" + " + 1" * 300 + ", 2)"], None),
+}
+DATA_DIRS = [".db", ".dw", ".dc16", ".dc32", ".dc64", "db", "dw", "dc32"]
+# how the source ends: (name, lines behind the last statement, `end` also directly behind the erroneous statement)
+TERMINATORS = [("none", [], False), ("end", ["end"], False), ("end-indented", ["  end"], False),
+               ("end+text", ["end", "this text is behind end and is never read", "  .qqzz 1"], False),
+               ("end-in-context", ["end"], True), ("dot-end", [".end"], False), ("END", ["END"], False)]
+_uid = [0]
+
+
+def deferred_lines(rng, kind):
+    lines, cpu = DEFERRED[kind]
+    _uid[0] += 1
+    d = rng.choice(DATA_DIRS)
+    return [(l % d if "%s" in l else l).replace("DSUM", "DSUM%d" % _uid[0]) for l in lines], cpu
+
+
 def gen(ctx):
     rng = ctx.rng
     cpus = S.cpus()
@@ -63,23 +99,48 @@ def gen(ctx):
     for i in range(n_valid):
         cpu = cpus[i % len(cpus)] if i < len(cpus) else rng.choice(cpus)
         lines = S.base_program(rng, cpu)
-        progs.append(("valid:" + cpu, "\n".join(lines) + "\n", TYPES[i % len(TYPES)], False))
-    kinds = S.corruptions()
+        tname = "none"
+        if rng.random() < 0.3 and cpu != "webasm":
+            tname, tl, _ = rng.choice(TERMINATORS[1:5])
+            lines = lines + tl
+        progs.append(("valid:%s:%s" % (cpu, tname), "\n".join(lines) + "\n", TYPES[i % len(TYPES)], False))
+    kinds = S.corruptions() + sorted(DEFERRED)
     n_bad = ctx.scale(140, 2500)
     for i in range(n_bad):
         cpu = rng.choice(["msp430", "msp430", "riscv", "6502", "z80", "mips", "avr8", "68000"] + cpus)
         kind = kinds[i % len(kinds)]
+        deferred = kind in DEFERRED
+        if deferred:
+            bad, force = deferred_lines(rng, kind)
+            cpu = force or cpu
         lines = S.base_program(rng, cpu, features=rng.random() < 0.5)
-        if rng.random() < 0.35 and kind in ("unknown-mnemonic", "undefined-symbol", "db-out-of-range", "dw-out-of-range",
-                                            "unknown-directive", "org-without-operand", "stray-token",
-                                            "expression-trailing-operator", "divide-by-zero"):
+        tname, tl, inctx = rng.choice(TERMINATORS) if (deferred or rng.random() < 0.3) and cpu != "webasm" else TERMINATORS[0]
+        if deferred:
+            if inctx:
+                bad = bad + ["end"]
+            if rng.random() < 0.5:
+                lines, ctxname = S.wrap_context(rng, lines, bad)
+            else:
+                # top-level positions only (as gen_src.corrupt): never inside the base program's own conditional,
+                # macro or repeat block, whose body may be skipped
+                feat = [k for k, l in enumerate(lines) if l.startswith((".if", ".macro", ".repeat", ".define"))]
+                first = feat[0] if feat else len(lines) - 2
+                at = rng.choice(list(range(2, first + 1)) + [len(lines) - 2])
+                lines, ctxname = lines[:at] + bad + lines[at:], "plain"
+            label = "bad:%s:%s:%s" % (kind, ctxname, cpu)
+        elif rng.random() < 0.35 and kind in ("unknown-mnemonic", "undefined-symbol", "db-out-of-range", "dw-out-of-range",
+                                              "unknown-directive", "org-without-operand", "stray-token",
+                                              "expression-trailing-operator", "divide-by-zero"):
             bad, _ = S.corrupt(rng, [], kind, where=0)
+            if inctx:
+                bad = bad + ["end"]
             lines, ctxname = S.wrap_context(rng, lines, bad)
             label = "bad:%s:%s:%s" % (kind, ctxname, cpu)
         else:
             lines, _ = S.corrupt(rng, lines, kind)
             label = "bad:%s:plain:%s" % (kind, cpu)
-        progs.append((label, "\n".join(lines) + "\n", rng.choice(TYPES), True))
+        lines = lines + tl
+        progs.append((label + ":" + tname, "\n".join(lines) + "\n", rng.choice(TYPES), True))
     return progs
 
 
@@ -187,6 +248,7 @@ def statement_sweep(ctx, orc):
     for cpu in S.cpus():
         for st in S.statements(cpu):
             for v in cpu_sweep.variants(st, not ctx.quick()):
+                v = v[0] if isinstance(v, tuple) else v      # variants() yields (text, position, value)
                 lines.append(nvlib.prog_line(".%s\n.org 0x1000\n  %s\n" % (cpu, v)))
                 meta.append((cpu, st, v))
     ans = ctx.impl(lines)
@@ -226,6 +288,9 @@ def oracle(ctx, orc, focus=None):
         orc["cases"] += 1
         kind = label.split(":")[1] if bad else "valid"
         ctxname = label.split(":")[2] if bad else "-"
+        term = label.split(":")[-1]
+        if term != "none":
+            ctxname += ":" + term
         sig_in = "%s:%s" % (label, otype)
         def fail(cls, exp, what):
             orc["failures"].append({"sig": "C12:%s:%s:%s" % (cls, kind, ctxname), "input": src, "label": label, "type": otype,
